@@ -29,11 +29,13 @@ ASSUMPTIONS = ['vt/ref/exact.py; "regular point" = |B\'(t)| > 1e-6 * curve size;
 TIERS = {
     'quick': {'shards': 14, 'random': 14000, 'timeout': 600, 'min_cases': 9000,
               'require_branches': ['singular:t=0', 'singular:t=1', 'singular:nondyadic', 'scalar:numpy', 'heading:left-half-plane',
-                                   'relation:rotation', 'relation:reversal', 'relation:scaling', 'arc:circular', 'kind:path']},
+                                   'relation:rotation', 'relation:reversal', 'relation:scaling', 'arc:circular', 'kind:path',
+                                   'triple:start', 'triple:end', 'arc:radius-scaled-up']},
     'thorough': {'shards': 14, 'random': 500000, 'timeout': 3000, 'min_cases': 250000,
                  'require_branches': ['singular:t=0', 'singular:t=1', 'singular:nondyadic', 'scalar:numpy',
                                       'heading:left-half-plane', 'relation:rotation', 'relation:reversal',
-                                      'relation:scaling', 'arc:circular', 'kind:path']},
+                                      'relation:scaling', 'arc:circular', 'kind:path', 'triple:start', 'triple:end',
+                                      'arc:radius-scaled-up']},
 }
 EPS = gen.EPS
 
@@ -334,6 +336,10 @@ def cases(ctx):
                 c2 = e if where in ('end', 'both') else s0 + sc * (2 * d + 0.3 * perp)
                 if rng.random() < 0.15 and where == 'start':
                     c2 = s0                     # triple point at the start: first non-vanishing derivative is B'''
+                    cls.append('triple:start')
+                elif rng.random() < 0.18 and where == 'end':
+                    c1 = e                      # ... and at the end (approached from below: the sign matters)
+                    cls.append('triple:end')
                 pts = [s0, c1, c2, e]
             spec = [kind] + [[z.real, z.imag] for z in pts]
             ts = [0, 1, 0.0, 1.0, rng.uniform(0, 1)]
@@ -350,6 +356,9 @@ def cases(ctx):
             e = gen.distinct_point(rng, 'rand', [s0])
             r = abs(e - s0) * rng.uniform(0.5, 3)
             circ = rng.random() < 0.5
+            if rng.random() < 0.25:
+                r = abs(e - s0) * rng.uniform(0.05, 0.499)      # radii too small for the chord: scaled up (F.6.6)
+                cls.append('arc:radius-scaled-up')
             spec = ['A', [s0.real, s0.imag], [r, r if circ else r * rng.uniform(0.2, 4)],
                     rng.choice([0, 45.0, rng.uniform(-180, 180)]), rng.random() < .5, rng.random() < .5, [e.real, e.imag]]
             ts = [0, 1, rng.uniform(0, 1), rng.uniform(0, 1)]
@@ -383,6 +392,9 @@ def run_case(ctx, case):
             _safe(p.normal, T)
         return
     s = gen.seg(case['seg'])
+    for c in case['cls']:
+        if c in ('triple:start', 'triple:end', 'arc:radius-scaled-up'):
+            ctx.branch(c)
     ts = case['ts']
     if case['scalar'] == 'np':
         ts = [np.float64(t) for t in ts]
